@@ -165,6 +165,10 @@ func (s *Solver) Assert(c *TermCtx, t *Term) {
 		s.asserted = append(s.asserted, t)
 		return
 	}
+	if s.IntMode {
+		s.ie.learn(t)
+		s.ie.learn(t)
+	}
 	s.emit(c, t)
 	s.send("(assert " + s.r(t) + ")")
 }
